@@ -1,34 +1,29 @@
 // @@prop: X00
 // @@fs: core
-// @@timeout: 600
+// @@timeout: 200
 use crate::refmodel::*;
-use domain::utils::{base16, base32, base64};
-use octseq::array::Array;
+use domain::base::name::{Label, Name, ParsedName, ToLabelIter, ToName};
+use octseq::parse::Parser;
 
-fn rt64<const N: usize>() {
-    let data: [u8; N] = kani::any();
-    let mut sink = CharSink::<MAXD>::new();
-    base64::display(&data[..], &mut sink).unwrap();
-    let mut dec = base64::Decoder::<FixedBuf<8>>::new();
-    let mut i = 0;
-    while i < sink.len {
-        assert!(dec.push(sink.buf[i]).is_ok());
-        i += 1;
-    }
-    let octs = dec.finalize().unwrap();
-    let s: &[u8] = octs.as_ref();
-    assert!(s.len() == N);
-    let mut j = 0;
-    while j < N {
-        assert!(s[j] == data[j]);
-        j += 1;
-    }
+// @funcs: x
+#[kani::proof]
+#[kani::unwind(6)]
+#[kani::stub(core::slice::index::slice_index_fail, crate::stubs::slice_index_fail)]
+fn x_parse_ref_all_concrete() {
+    let buf: [u8; 8] = [1, 97, 0, 2, 98, 99, 0xC0, 0];
+    let mut p = Parser::from_ref(&buf[..]);
+    p.seek(3).unwrap();
+    let r = ParsedName::parse_ref(&mut p);
+    assert!(r.is_ok());
 }
 // @funcs: x
 #[kani::proof]
-#[kani::unwind(10)]
-fn x_rt64_6() { rt64::<6>() }
-// @funcs: x
-#[kani::proof]
-#[kani::unwind(10)]
-fn x_rt64_5() { rt64::<5>() }
+#[kani::unwind(6)]
+#[kani::stub(core::slice::index::slice_index_fail, crate::stubs::slice_index_fail)]
+fn x_parse_ref_all_concrete_flat() {
+    let buf: [u8; 8] = [1, 97, 0, 2, 98, 99, 0, 0];
+    let mut p = Parser::from_ref(&buf[..]);
+    p.seek(3).unwrap();
+    let r = ParsedName::parse_ref(&mut p);
+    assert!(r.is_ok());
+}
